@@ -227,8 +227,20 @@ def mk_pdu_via_setters(kind, cfg, p):
             q["meta"] = ([] if sel == 0 else [{"state": p["meta"][0]["state"], "md": p["meta"][0]["md"][:-1] if len(p["meta"][0]["md"]) > 40
                                               else p["meta"][0]["md"] + [9, 9]}]) if p["meta"] else [{"state": 1, "md": [9]}]
             touch.add("meta")
-    obj, conf, params, snap = mk_pdu(kind, cfg, q)
+    flip_large = (kind == "filedata" and "data" in touch and len([x for x in p["offset"] if x]) <= 4
+                  and (len(p["data"]) + cfg["large"]) % 2 == 0 and int.from_bytes(bytes(p["offset"]), "big") < 2 ** 32)
+    if flip_large:
+        # the PDU starts its life under the OTHER large-file setting; the flag is then switched through the public header setter
+        # and the file data re-assigned (which re-computes the length): offset width and length follow the flag as it is now
+        cfg0 = dict(cfg, large=1 - cfg["large"])
+        obj, conf, params, snap = mk_pdu(kind, cfg0, q)
+    else:
+        obj, conf, params, snap = mk_pdu(kind, cfg, q)
     first = bytes(obj.pack())
+    if flip_large:
+        from spacepackets.cfdp.defs import LargeFileFlag
+        obj.pdu_header.file_flag = LargeFileFlag(cfg["large"])
+        decoded_first = False
     if decoded_first:
         # the object the setters are applied to was DECODED (e.g. a PDU that is forwarded with changes), not constructed
         obj = type(obj).unpack(first)
